@@ -105,3 +105,244 @@ Proof.
   exists (firstn 13 (run_log rl_ex_cfg 0 rl_ex_ins)). eexists _, _, _. exists (skipn 14 (run_log rl_ex_cfg 0 rl_ex_ins)).
   split; [lazy; reflexivity|]. lazy. repeat split.
 Qed.
+
+(* ------------------------------------------------------------------------------------------------------
+   C08 over WHOLE RUNS, second part (Proofs/RunTiming.v).  Any number of iterations, any send / receive outcomes,
+   any sequence of clock readings (set back, repeated, jumping forward).
+   [policy_b c start fnd last now] is the timing policy as a boolean FUNCTION of the quantities the property
+   names: the instant the round started, whether the target answered in it, the receive time of the latest genuine
+   answer, the clock reading.  [reading o] is the update_round reading an observation carries (OUpdate / OPublish),
+   [is_pub o] whether it published; [npub l] counts the publications of a log. *)
+From TV Require Import Proofs.RunTiming.
+
+(* the decision function is the policy of the statement: duration > max, or duration > min and the target answered
+   and more than grace has passed since the last response; durations saturate at zero *)
+Theorem c08_policy_b_is_policy : forall c start fnd last now,
+  policy_b c start fnd last now = true <->
+  (let dur := Z.max 0 (now - start) in
+   max_round_duration c < dur \/
+   (min_round_duration c < dur /\ fnd = true /\ exists t, last = Some t /\ grace_duration c < Z.max 0 (now - t))).
+Proof.
+  intros c start fnd last now. unfold policy_b. cbv zeta. split.
+  - intros H. apply orb_true_iff in H. destruct H as [H|H]; [left; lia|].
+    apply andb_true_iff in H. destruct H as [H Hg]. apply andb_true_iff in H. destruct H as [Hm Hf].
+    right. split; [lia|]. split; [assumption|]. destruct last as [t|]; [|discriminate]. exists t. split; [reflexivity|lia].
+  - intros [H|(Hm & Hf & t & Ht & Hg)]; apply orb_true_iff; [left; lia|].
+    right. rewrite Hf, Ht. apply andb_true_iff. split; [apply andb_true_iff; split; [lia|reflexivity]|lia].
+Qed.
+
+(* (a) EXACTNESS in one statement: at every reading update_round takes in any run, a round is published if and only
+   if the policy function says so on that reading, the start of the round in progress and its genuine answers *)
+Theorem c08_run_exact : forall c t0 is l1 o l2 now, Accept c ->
+  run_log c t0 is = l1 ++ o :: l2 -> reading o = Some now ->
+  let g := ghost_after c t0 l1 in
+  is_pub o = policy_b c (g_start g) (found (g_A g)) (last_recv (g_A g)) now.
+Proof. exact c08_run_exact_lemma. Qed.
+
+(* (f) the completion reason handed to the publish callback is the one the policy gives: TargetFound exactly when
+   the target answered in that round *)
+Theorem c08_run_reason_is_policy : forall c t0 is l1 r now adv l2, Accept c ->
+  run_log c t0 is = l1 ++ OPublish r now adv :: l2 ->
+  rr_reason r = reason_b (found (g_A (ghost_after c t0 l1))).
+Proof. exact c08_run_reason_lemma. Qed.
+
+(* (f) which arm of the policy stands behind the reason: TargetFound means the target answered and either min and
+   grace have really passed (not saturated) or the time limit has; RoundTimeLimitExceeded means no target answer and
+   the time limit really exceeded *)
+Theorem c08_reason_arm : forall c t0 is l1 r now adv l2, Accept c ->
+  run_log c t0 is = l1 ++ OPublish r now adv :: l2 ->
+  let g := ghost_after c t0 l1 in
+  (rr_reason r = TargetFound ->
+     found (g_A g) = true /\
+     ((min_round_duration c < now - g_start g /\
+       exists t, last_recv (g_A g) = Some t /\ grace_duration c < now - t) \/
+      max_round_duration c < now - g_start g)) /\
+  (rr_reason r = RoundTimeLimitExceeded ->
+     found (g_A g) = false /\ max_round_duration c < now - g_start g).
+Proof. exact c08_reason_arm_lemma. Qed.
+
+(* (f) REFUTED: "the reason tells which arm held" read strictly.  A round whose target answer arrives in the very
+   iteration whose reading lies beyond max is ended by the time limit alone (grace has not passed since that answer),
+   yet the reason published is TargetFound: the reason tells whether the target answered, not which arm fired
+   (c08_reason_arm is the exact statement) *)
+Theorem c08_target_found_without_grace_refuted : exists c t0 is l1 r now adv l2 t,
+  Accept c /\ min_round_duration c <= max_round_duration c /\
+  run_log c t0 is = l1 ++ OPublish r now adv :: l2 /\ rr_reason r = TargetFound /\
+  last_recv (g_A (ghost_after c t0 l1)) = Some t /\ now - t <= grace_duration c.
+Proof. exact c08_target_found_without_grace_refuted_lemma. Qed.
+
+(* (b) for settings with min <= max, no round of any run is published before min_round_duration has passed on the
+   readings: the publishing reading lies strictly more than min after the start of that round *)
+Theorem c08_never_before_min : forall c t0 is l1 r now adv l2, Accept c ->
+  min_round_duration c <= max_round_duration c ->
+  run_log c t0 is = l1 ++ OPublish r now adv :: l2 ->
+  min_round_duration c < now - g_start (ghost_after c t0 l1).
+Proof. exact c08_never_before_min_lemma. Qed.
+
+(* (b) the same read forwards: a reading at most min after the round start leaves the round open, whatever was
+   received *)
+Theorem c08_within_min_stays_open : forall c t0 is l1 o l2 now, Accept c ->
+  min_round_duration c <= max_round_duration c ->
+  run_log c t0 is = l1 ++ o :: l2 -> reading o = Some now ->
+  now - g_start (ghost_after c t0 l1) <= min_round_duration c -> o = OUpdate now.
+Proof. exact c08_within_min_stays_open_lemma. Qed.
+
+(* (b) REFUTED without min <= max.  trippy-core's Builder accepts min > max (only the TUI's configuration layer
+   rejects it): with min = 100, max = 5 a silent round is published at the reading 6 *)
+Theorem c08_before_min_without_order_refuted : exists c t0 is l1 r now adv l2,
+  Accept c /\ run_log c t0 is = l1 ++ OPublish r now adv :: l2 /\
+  now - g_start (ghost_after c t0 l1) <= min_round_duration c.
+Proof. exact c08_before_min_refuted_lemma. Qed.
+
+(* (c) a clock set back never ends a round: a reading at or before the round start leaves the round open, for all
+   settings (duration_since saturates to zero and no duration is negative) *)
+Theorem c08_clock_set_back : forall c t0 is l1 o l2 now, Accept c ->
+  run_log c t0 is = l1 ++ o :: l2 -> reading o = Some now ->
+  now <= g_start (ghost_after c t0 l1) -> o = OUpdate now.
+Proof. exact c08_clock_set_back_lemma. Qed.
+
+(* (c) the round ends at the FIRST reading that satisfies the policy: every earlier reading of that round (in any
+   order, set back or not) was judged from the same round start and failed the policy on the answers received by
+   then, and the publishing reading satisfies it *)
+Theorem c08_first_satisfying : forall c t0 is l1 mid r now adv l2, Accept c ->
+  run_log c t0 is = l1 ++ mid ++ OPublish r now adv :: l2 -> no_publish mid ->
+  let st := g_start (ghost_after c t0 l1) in
+  (forall m1 u m2, mid = m1 ++ OUpdate u :: m2 ->
+     let g := ghost_after c t0 (l1 ++ m1) in
+     g_start g = st /\ policy_b c st (found (g_A g)) (last_recv (g_A g)) u = false) /\
+  (let g := ghost_after c t0 (l1 ++ mid) in
+   g_start g = st /\ policy_b c st (found (g_A g)) (last_recv (g_A g)) now = true).
+Proof. exact c08_first_satisfying_lemma. Qed.
+
+(* a clock that jumps forward ends the round at once - with no assumption on the environment, a reading that
+   leaves the round open lies at most max after the round start; and once the target has answered and min has
+   passed, the round stays open only within grace of the last answer *)
+Theorem c08_open_reading : forall c t0 is l1 now l2, Accept c ->
+  run_log c t0 is = l1 ++ OUpdate now :: l2 ->
+  let g := ghost_after c t0 l1 in
+  now - g_start g <= max_round_duration c /\
+  (found (g_A g) = true -> min_round_duration c < now - g_start g ->
+   exists t, last_recv (g_A g) = Some t /\ now - t <= grace_duration c).
+Proof. exact c08_open_reading_lemma. Qed.
+
+(* (d) the round counter is the number of publications so far and the round start is the advance_round reading of
+   the last publication (t0 before the first); a publication moves the counter by exactly one and sets the start to
+   the reading taken at that publication *)
+Theorem c08_round_counter : forall c t0,
+  (forall l, g_round (ghost_after c t0 l) = Z.of_nat (npub l) /\ g_start (ghost_after c t0 l) = last_start t0 l) /\
+  (forall l1 r now adv,
+     g_round (ghost_after c t0 (l1 ++ [OPublish r now adv])) = g_round (ghost_after c t0 l1) + 1 /\
+     g_start (ghost_after c t0 (l1 ++ [OPublish r now adv])) = adv).
+Proof. exact c08_round_counter_lemma. Qed.
+
+(* (d) observable on the wire: every probe handed to the network carries the number of rounds published before it *)
+Theorem c08_probe_round : forall c t0 is l1 p o l2, Accept c ->
+  run_log c t0 is = l1 ++ OSend p o :: l2 -> p_round p = Z.of_nat (npub l1).
+Proof. exact c08_probe_round_lemma. Qed.
+
+(* (d) in the tracer state at the end of every run that did not fail: round = number of rounds published,
+   round_start = the reading advance_round took at the last publication *)
+Theorem c08_final_counter : forall c t0 is ev o sf, Accept c -> run c t0 is = (ev, o, sf) ->
+  (forall e, o <> Failed_with e) ->
+  round sf = Z.of_nat (length (pubs ev)) /\ round_start sf = last_start t0 (run_log c t0 is).
+Proof. exact c08_final_counter_lemma. Qed.
+
+(* (d) iteration by iteration: an iteration of a run that has not ended adds to the log its sends, its delivery and
+   exactly ONE reading, the i_update of that iteration, judged against the round_start the state held before the
+   iteration; either nothing is published and counter and start stay, or one round is published, the counter moves
+   by one and the start becomes the i_advance reading of that same iteration *)
+Theorem c08_iteration : forall c t0 pre i ev0 s0 s' ev1, Accept c ->
+  run c t0 pre = (ev0, Running, s0) -> step c s0 i = Ok (s', ev1, None) ->
+  exists mid o, run_log c t0 (pre ++ [i]) = run_log c t0 pre ++ mid ++ [o] /\ npub mid = 0%nat /\
+    g_start (ghost_after c t0 (run_log c t0 pre ++ mid)) = round_start s0 /\
+    ((o = OUpdate (i_update i) /\ pubs ev1 = [] /\ round s' = round s0 /\ round_start s' = round_start s0) \/
+     (exists r, o = OPublish r (i_update i) (i_advance i) /\ pubs ev1 = [r] /\
+        round s' = round s0 + 1 /\ round_start s' = i_advance i)).
+Proof. exact c08_iteration_lemma. Qed.
+
+(* (e) bounded traces: every publication is that of a round below max_rounds; the publication of the last round
+   (number max_rounds - 1) is the last observation of the run; and it obeys the same policy with the same reason *)
+Theorem c08_bounded_trace : forall c t0 is n l1 r now adv l2, Accept c -> max_rounds c = Some n ->
+  run_log c t0 is = l1 ++ OPublish r now adv :: l2 ->
+  let g := ghost_after c t0 l1 in
+  Z.of_nat (npub l1) < n /\
+  (Z.of_nat (npub l1) = n - 1 -> l2 = []) /\
+  policy_b c (g_start g) (found (g_A g)) (last_recv (g_A g)) now = true /\
+  rr_reason r = reason_b (found (g_A g)).
+Proof. exact c08_bounded_trace_lemma. Qed.
+
+(* (e) a bounded trace publishes at most max_rounds rounds, and exactly max_rounds when it finishes *)
+Theorem c08_at_most_max_rounds : forall c t0 is n ev o sf, Accept c -> max_rounds c = Some n ->
+  run c t0 is = (ev, o, sf) ->
+  Z.of_nat (length (pubs ev)) <= n /\ (o = Finished -> Z.of_nat (length (pubs ev)) = n).
+Proof. exact c08_at_most_max_rounds_lemma. Qed.
+
+(* (g) zero durations: with max = 0 (in particular all durations zero) a reading publishes iff it lies strictly
+   after the round start - a round is never published at the instant it starts *)
+Theorem c08_zero_max : forall c t0 is l1 o l2 now, Accept c -> max_round_duration c = 0 ->
+  run_log c t0 is = l1 ++ o :: l2 -> reading o = Some now ->
+  is_pub o = (g_start (ghost_after c t0 l1) <? now).
+Proof. exact c08_zero_max_lemma. Qed.
+
+(* (g) min = max: the target-found arm never ends a round earlier than the time limit; only the reason differs *)
+Theorem c08_min_eq_max : forall c t0 is l1 o l2 now, Accept c -> min_round_duration c = max_round_duration c ->
+  run_log c t0 is = l1 ++ o :: l2 -> reading o = Some now ->
+  is_pub o = (max_round_duration c <? now - g_start (ghost_after c t0 l1)).
+Proof. exact c08_min_eq_max_lemma. Qed.
+
+(* non-vacuity.  [rt_ex_ins]: the path of rl_ex_ins with a clock that is set back and jumps: readings 1 2 3 4 (the
+   target answers at 4), -50 (set back: open), 11 (publish, TargetFound; round 1 starts at 12), 16, 5 (set back before
+   the round start), 40, 1000 (jump: publish, time limit) *)
+Example c08_ex2_accept : (Accept rl_ex_cfg /\ Accept rt_cfg2 /\ Accept rt_zero_cfg) /\
+  min_round_duration rl_ex_cfg <= max_round_duration rl_ex_cfg.
+Proof. split; [exact rt_cfgs_accept|cbn; lia]. Qed.
+
+Example c08_ex2_decisions :
+  decisions (run_log rl_ex_cfg 0 rt_ex_ins) =
+    [(1, false); (2, false); (3, false); (4, false); (-50, false); (11, true); (16, false); (5, false); (40, false);
+     (1000, true)] /\
+  map rr_reason (pubs (fst (fst (run rl_ex_cfg 0 rt_ex_ins)))) = [TargetFound; RoundTimeLimitExceeded].
+Proof. split; vm_compute; reflexivity. Qed.
+
+(* the set-back readings meet the hypotheses of c08_clock_set_back, the round-1 segment those of c08_first_satisfying *)
+Example c08_ex2_set_back : let L := run_log rl_ex_cfg 0 rt_ex_ins in
+  (exists l1 l2, L = l1 ++ OUpdate (-50) :: l2 /\ -50 <= g_start (ghost_after rl_ex_cfg 0 l1)) /\
+  (exists l1 l2, L = l1 ++ OUpdate 5 :: l2 /\ g_start (ghost_after rl_ex_cfg 0 l1) = 12) /\
+  (exists l1 mid r l2, L = l1 ++ mid ++ OPublish r 1000 1001 :: l2 /\ no_publish mid /\ npub l1 = 1%nat /\
+     length mid = 6%nat).
+Proof.
+  intros L. split; [|split].
+  - exists (firstn 11 L), (skipn 12 L). split; [lazy; reflexivity|lazy; discriminate].
+  - exists (firstn 16 L), (skipn 17 L). split; lazy; reflexivity.
+  - exists (firstn 13 L), (firstn 6 (skipn 13 L)). eexists. exists (skipn 20 L).
+    split; [lazy; reflexivity|]. split; [|split; lazy; reflexivity].
+    intros r now adv Hin. lazy in Hin. repeat (destruct Hin as [Hin|Hin]; [discriminate Hin|]). exact Hin.
+Qed.
+
+(* the probes of round 1 carry round number 1 = publications before them *)
+Example c08_ex2_probe_round : exists l1 p l2,
+  run_log rl_ex_cfg 0 rt_ex_ins = l1 ++ OSend p Sent :: l2 /\ npub l1 = 1%nat /\ p_round p = 1.
+Proof.
+  exists (firstn 13 (run_log rl_ex_cfg 0 rt_ex_ins)). eexists. exists (skipn 14 (run_log rl_ex_cfg 0 rt_ex_ins)).
+  split; [lazy; reflexivity|]. split; lazy; reflexivity.
+Qed.
+
+(* bounded to two rounds the same run finishes, and the publication of round 1 is its last observation *)
+Example c08_ex2_bounded :
+  snd (fst (run rt_cfg2 0 rt_ex_ins)) = Finished /\ length (pubs (fst (fst (run rt_cfg2 0 rt_ex_ins)))) = 2%nat /\
+  exists l1 r, run_log rt_cfg2 0 rt_ex_ins = l1 ++ OPublish r 1000 1001 :: [] /\ npub l1 = 1%nat.
+Proof.
+  split; [vm_compute; reflexivity|]. split; [vm_compute; reflexivity|].
+  exists (firstn 19 (run_log rt_cfg2 0 rt_ex_ins)). eexists. split; lazy; reflexivity.
+Qed.
+
+(* all durations zero: readings 0 (the start itself: open), -3 (open), 1 (publish; round 1 starts at 2), 2 (open), 3 *)
+Example c08_ex2_zero :
+  decisions (run_log rt_zero_cfg 0 rt_zero_ins) = [(0, false); (-3, false); (1, true); (2, false); (3, true)].
+Proof. vm_compute. reflexivity. Qed.
+
+(* an instance of c08_iteration: after the first five iterations the run is still running, and the sixth publishes *)
+Example c08_ex2_iteration : exists ev0 s0 s' ev1 r,
+  run rl_ex_cfg 0 (firstn 5 rt_ex_ins) = (ev0, Running, s0) /\
+  step rl_ex_cfg s0 (rl_ex_it Timeout 11) = Ok (s', ev1, None) /\ pubs ev1 = [r] /\ round_start s' = 12.
+Proof. eexists _, _, _, _, _. split; [vm_compute; reflexivity|]. split; [vm_compute; reflexivity|]. split; vm_compute; reflexivity. Qed.
